@@ -1,0 +1,46 @@
+//go:build verif
+
+// Contracts for /verif (build tag "verif"): //@ comment blocks and pure ghost functions only.
+package wazevo
+
+import (
+	"io"
+
+	"github.com/tetratelabs/wazero/internal/wasm"
+)
+
+var (
+	_ io.Reader
+	_ *wasm.Module
+)
+
+// bytesRead counts the bytes consumed from the cache entry being loaded (ghost).
+func bytesRead() int { return verif_ghost_int("bytesRead") }
+
+// cacheDeletes counts deletions of stale entries (ghost).
+func cacheDeletes() int { return verif_ghost_int("cacheDeletes") }
+
+// ---- assumed meaning of the stream primitives ----
+//@ prop C13
+//@ iface (r io.Reader) Read(p []byte) (n int, err error)
+//@   ensures 0 <= n && n <= len(p) && bytesRead() == old(bytesRead()) + n
+//@   modifies elems(p), ghost("bytesRead")
+//@ func io.ReadFull(r io.Reader, buf []byte) (n int, err error)
+//@   trusted
+//@   ensures 0 <= n && n <= len(buf) && (err == nil ==> n == len(buf)) && bytesRead() == old(bytesRead()) + n
+//@   modifies elems(buf), ghost("bytesRead")
+//@ iface (c io.Closer) Close() error
+//@   modifies nothing
+
+// A 64-bit field is accepted only if all eight bytes were actually there (a short read is an error,
+// never a value made of stale buffer contents).
+//@ func readUint64(reader io.Reader, b *[8]byte) (uint64, error)
+//@   requires reader != nil
+//@   ensures[all-eight-bytes-or-error] r1 == nil ==> bytesRead() == old(bytesRead()) + 8
+//@   ensures[value-is-little-endian] r1 == nil ==> r0 == uint64(b[0]) | uint64(b[1])<<8 | uint64(b[2])<<16 | uint64(b[3])<<24 | uint64(b[4])<<32 | uint64(b[5])<<40 | uint64(b[6])<<48 | uint64(b[7])<<56
+//@   modifies elems(b[:]), ghost("bytesRead")
+
+// Loading an entry never raises a Go runtime error, whatever bytes the file holds (safety sweep).
+//@ func deserializeCompiledModule(wazeroVersion string, reader io.ReadCloser) (cm *compiledModule, staleCache bool, err error)
+//@   requires reader != nil
+//@   sweep
